@@ -886,7 +886,10 @@ def craft_counts(isa, r):
 def craft_strings(isa, r):
     _need(isa, "PUSH_STR", "DUP", "ADD", "RET", "PUSH_I64")
     a = Asm(isa)
+    strs = (b"main", r.choice((b"a", b"", b"ab\0cd", b"x" * 255, b"%s%n", bytes(range(1, 256)))), b"b")
     k = r.choice((0, 1, 5, 10, 16, 20, 22))
+    while k and (len(strs[1]) << k) > (1 << 24):        # keep the doubled string below 16 MiB
+        k -= 1
     items = [("PUSH_STR", 1)] + [("DUP",), ("ADD",)] * k
     use = r.choice(("STR_SUBSTR", "STR_SUBSTR", "STR_CHAR_AT", "STR_CONTAINS", "STR_EQ", "STR_LEN", "CAST_INT", "CAST_FLOAT", "PRINT", "STR_CONCAT"))
     if not isa.has(use):
@@ -900,7 +903,6 @@ def craft_strings(isa, r):
     else:
         items += [(use,)]
     items += [("PUSH_I64", 0), ("RET",)]
-    strs = (b"main", r.choice((b"a", b"", b"ab\0cd", b"x" * 255, b"%s%n", bytes(range(1, 256)))), b"b")
     return "craft.strings", a.module([(0, 0, 0, 0, items)], strings=strs)
 
 
